@@ -12,8 +12,8 @@ from ..runner import Outcome, fail
 
 ID = 'C20'
 LEVEL = 'exploration'
-RULE = ('(limiter) generated limit L in [16,1e7], 1..6 streams sharing one RateLimitedIO, per stream a sequence of reads or '
-        'writes of sizes d <= L/4 (incl. 0, 1, L/4) with occasional seek/tell/truncate, underlying I/O latencies, sleep '
+RULE = ('(limiter) generated limit L in [16,1e7] (optionally a different write limit), 1..6 streams sharing one RateLimitedIO, per stream a sequence of reads or '
+        'writes of sizes d <= L/4 (incl. 0, 1, L/4, and thousands of blocks of L/20000..L/1500 bytes) with occasional seek/tell/truncate and idle periods of the caller, underlying I/O latencies, sleep '
         'overshoots in [0,J] and a list of scheduling choices; executed under a deterministic discrete-event scheduler '
         '(virtual clock substituted for replicat.utils.time, scheduler-aware locks in the limiter). Oracle: for all pairs of '
         'event times s<=t the payload bytes that passed in [s,t] are <= L*(t-s) + B with B = L*(1+J) + n*d_max; bytes read '
@@ -28,7 +28,7 @@ ASSUMPTIONS = ['the scheduler switches tasks only at sleep, lock and simulated I
 def budget(tier):
     if tier == 'quick':
         return {'shards': 16, 'examples': 60, 'wall': 240}
-    return {'shards': 16, 'examples': 3000, 'wall': 2400}
+    return {'shards': 16, 'examples': 1500, 'wall': 2400}
 
 
 @st.composite
@@ -40,13 +40,21 @@ def limiter_case(draw):
     for i in range(n):
         mode = draw(st.sampled_from(['r', 'r', 'w']))
         ops = []
-        style = draw(st.integers(0, 2))
+        style = draw(st.integers(0, 3))
+        if style == 3:
+            # very many very small blocks (far below one millisecond's worth of bandwidth each)
+            d = max(1, L // draw(st.sampled_from([1500, 4000, 20000])))
+            ops = [['io', d, draw(st.sampled_from([1500, 3000]))]]
+            streams.append({'mode': mode, 'ops': ops, 'latency': [0.0], 'seed': draw(st.integers(0, 999))})
+            continue
         for _ in range(draw(st.integers(1, 40))):
             k = draw(st.integers(0, 19))
             if k == 0:
                 ops.append(['seek', draw(st.integers(0, 3)), draw(st.integers(0, 2))])
             elif k == 1:
                 ops.append(['tell'])
+            elif k == 3:
+                ops.append(['idle', draw(st.sampled_from([0.3, 2.0, 10.0]))])     # the caller is busy elsewhere for a while
             elif k == 2 and mode == 'w':
                 ops.append(['truncate', draw(st.integers(0, 3))])
             else:
@@ -63,7 +71,7 @@ def limiter_case(draw):
     return {'kind': 'limiter', 'L': L, 'streams': streams, 'J': J,
             'overshoots': draw(st.lists(st.sampled_from([0.0, J / 2, J]), min_size=1, max_size=5)),
             'choices': draw(st.lists(st.integers(0, 5), min_size=1, max_size=12)),
-            'split_limits': draw(st.booleans())}
+            'split_limits': draw(st.booleans()), 'L2': draw(st.sampled_from([None, None, 4 * L, 50 * L]))}
 
 
 @st.composite
@@ -138,7 +146,12 @@ def _limiter(case):
     U.time = fake_time
     classes = [f'streams:{len(case["streams"])}']
     try:
-        limiter = U.RateLimitedIO(L) if not case['split_limits'] else U.RateLimitedIO(L, L)
+        L2 = case.get('L2') or L
+        if case.get('L2'):
+            limiter = U.RateLimitedIO(L, write_limit=L2)
+            classes.append('asymmetric-limits')
+        else:
+            limiter = U.RateLimitedIO(L) if not case['split_limits'] else U.RateLimitedIO(L, L)
         limiter._read_lock = sched.SchedLock(sc)
         limiter._write_lock = sched.SchedLock(sc)
         del _LIMITER_LOCKS[:]
@@ -150,6 +163,14 @@ def _limiter(case):
 
         def make(sid, st_):
             nonlocal dmax
+            expanded = []
+            for o in st_['ops']:
+                if o[0] == 'io' and len(o) > 2:
+                    expanded.extend([['io', o[1]]] * o[2])
+                    classes.append('tiny-blocks')
+                else:
+                    expanded.append(o)
+            st_ = dict(st_, ops=expanded)
             total = sum(o[1] for o in st_['ops'] if o[0] == 'io')
             src = random.Random(st_['seed']).randbytes(total + 16)
             for o in st_['ops']:
@@ -188,6 +209,8 @@ def _limiter(case):
                         if a != b:
                             problems.append(fail('seek', f'stream {sid}: seek({target}) returned {a}, model {b}'))
                             return
+                    elif o[0] == 'idle':
+                        sc.sleep(o[1], overshoot=False)
                     elif o[0] == 'tell':
                         if w.tell() != model.tell():
                             problems.append(fail('tell', f'stream {sid}: tell() = {w.tell()}, model {model.tell()}'))
@@ -216,32 +239,40 @@ def _limiter(case):
     if problems:
         return Outcome(problems[0], classes)
     n = len(case['streams'])
-    B = L * (1 + case['J']) + n * dmax
     worst = 0.0
     overlap = False
     total = 0
-    for label, events in (('read', revents), ('write', wevents)):
+    B = L * (1 + case['J']) + n * dmax
+    for label, events, lim in (('read', revents, L), ('write', wevents, L2)):
+        Bd = lim * (1 + case['J']) + n * dmax
         events.sort()
-        total = max(total, sum(e[1] for e in events))
+        if lim == L:
+            total = max(total, sum(e[1] for e in events))
         overlap = overlap or any(e[3] for e in events)
         m = len(events)
-        for i in range(m):
-            acc = 0
-            ti = events[i][0]
-            for j in range(i, m):
-                acc += events[j][1]
-                excess = acc - L * (events[j][0] - ti)
-                if excess > worst:
-                    worst = excess
-                if excess > B + 1e-6:
-                    tj = events[j][0]
-                    lat_in_window = sum(max(0.0, min(b, tj) - max(a, ti)) for a, b in INTERVALS)
-                    explained = n >= 2 and lat_in_window > 0 and excess <= B + L * lat_in_window + 1e-6
-                    return Outcome(fail('rate', f'{label}s: {acc} bytes passed between t={ti:.4f} and t={tj:.4f} with limit '
-                                        f'{L} B/s: {excess:.1f} above L*T, allowance B={B:.1f} (n={n}, d_max={dmax}, J={case["J"]}); '
-                                        f'underlying I/O waits inside the window sum to {lat_in_window:.3f}s',
-                                        excess_over_B=excess / B, streams=n, latency_in_window=lat_in_window,
-                                        explained_by_concurrent_latency=explained), classes, True)
+        # excess(i, j) = (S[j+1] - lim*t[j]) - (S[i] - lim*t[i]): keep the running minimum of S[i] - lim*t[i] over i <= j
+        acc = 0
+        best = None
+        for j in range(m):
+            tj = events[j][0]
+            val_i = acc - lim * tj
+            if best is None or val_i < best[0]:
+                best = (val_i, j)
+            acc += events[j][1]
+            excess = acc - lim * tj - best[0]
+            if excess > worst:
+                worst = excess
+            if excess > Bd + 1e-6:
+                i = best[1]
+                ti = events[i][0]
+                passed = acc - sum(e[1] for e in events[:i])
+                lat_in_window = sum(max(0.0, min(b, tj) - max(a, ti)) for a, b in INTERVALS)
+                explained = n >= 2 and lat_in_window > 0 and excess <= Bd + lim * lat_in_window + 1e-6
+                return Outcome(fail('rate', f'{label}s: {passed} bytes passed between t={ti:.4f} and t={tj:.4f} with limit '
+                                    f'{lim} B/s: {excess:.1f} above L*T, allowance B={Bd:.1f} (n={n}, d_max={dmax}, J={case["J"]}); '
+                                    f'underlying I/O waits inside the window sum to {lat_in_window:.3f}s',
+                                    excess_over_B=excess / Bd, streams=n, latency_in_window=lat_in_window,
+                                    explained_by_concurrent_latency=explained), classes, True)
     nontrivial = total >= 4 * B and (n == 1 or overlap)
     if overlap:
         classes.append('transfer-while-another-sleeps-in-limiter')
